@@ -3,7 +3,7 @@ from vlib import cbool, clist, copt
 
 ID = "C18"
 PROPERTIES_V = ["theories/Properties/C18.v"]
-MAKE_TARGETS = ["theories/Properties/C18.vo", "theories/Model/C18Cases.vo"]
+MAKE_TARGETS = ["theories/Properties/C18.vo", "theories/Model/C18Cases.vo", "theories/Proofs/GenAgreeEpoch.vo"]
 HARNESS = "c18"
 CASES_IMPORTS = ("From Coq Require Import ZArith NArith List.\n"
                  "From Verif Require Import Model.Epoch Model.EpochFloat Model.C18Cases.\nOpen Scope N_scope.")
@@ -34,6 +34,10 @@ TRUSTED_EXTRA = [
     "Flocq 4.1.0 (binary64 model) and the Coq Reals axioms, used only by the three C18_float_* theorems and by the float64 model "
     "evaluated in case files",
     "hook /repo/aggsender/verif_export_c18.go: attribution of a published event to a delivery by counting calls of ctx.Done()",
+    "tools/go2coq (Go AST -> Gallina, ~600 lines): translates epochNumber, startingBlockEpoch, endBlockEpoch, percentEpoch, "
+    "isNotificationRequired, infoEpoch and step of epoch_notifier_per_block.go into Gen/GenEpoch.v on every run; trusted to render "
+    "Go's uint64 (+,-,* wrap; / is N.div, divisor validated non-zero by Config.Validate), float64 (Flocq binary64, round to nearest "
+    "even) and control flow (if / return / assignment; logger calls dropped) faithfully; the generated text is committed and diffable",
 ]
 
 
@@ -160,4 +164,6 @@ LEVEL_NOTE = ("Full in exact arithmetic; float part proved for N < 2^45, refuted
               "not a defect within the quantifier read with realistic epoch lengths). Boundary stated: a delivery of StartingEpochBlock "
               "itself is ignored. Trusted: Coq kernel + vm_compute, Flocq + Reals axioms for the float theorems only, the hand "
               "transcription of step/isNotificationRequired (validated by the correspondence), goroutine/channel delivery order.")
-TECHNIQUE = "Coq proof (induction with a status invariant; Flocq for float64) + differential correspondence via vm_compute"
+TECHNIQUE = ("Coq proof (induction with a status invariant; Flocq for float64); epoch_notifier_per_block.go is TRANSLATED to Gallina on every "
+             "run (tools/go2coq -> Gen/GenEpoch.v, wrapping uint64 and float64 as in the source) and the property is proved of the translated "
+             "code; differential correspondence via vm_compute")
